@@ -78,15 +78,22 @@ def _mask(
 
 
 @composite
-def null_field_masks(draw, strategy: Optional[SearchStrategy]):
+def null_field_masks(
+    draw, strategy: Optional[SearchStrategy], unique: bool = False
+):
     """Strategy for masking a column/index with null values.
 
     :param strategy: an optional hypothesis strategy. If specified, the
         pandas dtype strategy will be chained onto this strategy.
+    :param unique: whether the values have to be unique. Null values are
+        duplicates of each other, so at most one value is masked.
     """
     val = draw(strategy)
     size = val.shape[0]
     null_mask = draw(st.lists(st.booleans(), min_size=size, max_size=size))
+    if unique and True in null_mask:
+        first_null = null_mask.index(True)
+        null_mask = [i == first_null for i in range(size)]
     if isinstance(val, pd.Index):
         val = val.to_series()
         val = _mask(val, null_mask)
@@ -865,7 +872,7 @@ def series_strategy(
         .map(partial(convert_dtype, col_dtype=pandera_dtype.type))
     )
     if nullable:
-        strategy = null_field_masks(strategy)
+        strategy = null_field_masks(strategy, unique=bool(unique))
 
     def undefined_check_strategy(strategy, check):
         """Strategy for checks with undefined strategies."""
@@ -966,7 +973,7 @@ def index_strategy(
     if name is not None:
         strategy = strategy.map(lambda index: index.rename(name))
     if nullable:
-        strategy = null_field_masks(strategy)
+        strategy = null_field_masks(strategy, unique=bool(unique))
     return strategy
 
 
